@@ -1163,7 +1163,9 @@ func pickBestVisibleNamespace(ps *PushContext, byNamespace map[string]*Service, 
 				return svc.NamespacedName().Namespace
 			}
 			// if this is the first visible service, or it's older than our current best, then it is the new best that we have seen
-			if currentBestService == nil || svc.CreationTime.Before(currentBestService.CreationTime) {
+			// ties on the creation time are broken by namespace so that the result does not depend on map iteration order
+			if currentBestService == nil || svc.CreationTime.Before(currentBestService.CreationTime) ||
+				(svc.CreationTime.Equal(currentBestService.CreationTime) && svc.Attributes.Namespace < currentBestService.Attributes.Namespace) {
 				currentBestService = svc
 			}
 		}
